@@ -218,6 +218,24 @@ def observeSite (d : Site) : Observed :=
 def observeRedirect (r : Site) : ObservedRedirect :=
   { fHost := r.host, fPort := r.port, fEnabled := r.enabled, target := r.redir }
 
+/-! ## the probe request sent to every synthesised site by stream c15.sites -/
+
+def probeHost : Bytes := b!"probe.test"
+def probeURI : Bytes := b!"/p?q=1"
+
+/-- the port written in a Location of the form `https://probe.test[:port]/p?q=1` ("" = none written);
+`none` = the Location does not have that form -/
+def probeTarget (loc : Bytes) : Option Bytes :=
+  let pre := b!"https://probe.test"
+  if !hasPrefix loc pre then none
+  else
+    let rest := loc.drop pre.length
+    if rest == probeURI then some []
+    else if hasPrefix rest b!":" && hasSuffix rest probeURI then
+      let p := (rest.drop 1).take (rest.length - 1 - probeURI.length)
+      if p.all isDigit && !p.isEmpty then some p else none
+    else none
+
 /-! ## the redirect answer -/
 
 /-- host part of a Host header: `name`, `name:port`, `[v6]`, `[v6]:port` → `name` / `[v6]` -/
